@@ -394,13 +394,18 @@ func runC11(c *core.Case) {
 		return true
 	}})
 	ops = append(ops, opT{"internal.recover", func() bool {
-		ctx, cancel := context.WithTimeout(context.Background(), 3*time.Millisecond)
-		defer cancel()
 		probe := e.tab.Clone()
 		saved := e.tab
 		want := e.refInternalAcquire(8_888_888)
 		e.tab = saved
 		_ = probe
+		// (short wait only where the reference says it must block; see snap below)
+		d := 3 * time.Millisecond
+		if want {
+			d = 20 * time.Second
+		}
+		ctx, cancel := context.WithTimeout(context.Background(), d)
+		defer cancel()
 		err := e.db.Recover(ctx)
 		if (err == nil) != want {
 			if err == nil {
@@ -448,7 +453,16 @@ func runC11(c *core.Case) {
 	snap := func(name string, f func(ctx context.Context) error) opT {
 		return opT{name, func() bool {
 			want := e.refSnapshotPossible()
-			ctx, cancel := context.WithTimeout(context.Background(), 3*time.Millisecond)
+			// A blocked sequence is recognised by its context running out (nobody
+			// else runs in this single-threaded walk, so it can never be granted
+			// later): keep that wait short. A grantable sequence simply runs to
+			// completion; its deadline is only a watchdog and must be generous -
+			// 3 ms was not enough on a cold machine (false alarm in a fresh sandbox).
+			d := 3 * time.Millisecond
+			if want {
+				d = 20 * time.Second
+			}
+			ctx, cancel := context.WithTimeout(context.Background(), d)
 			defer cancel()
 			err := f(ctx)
 			if (err == nil) != want {
